@@ -588,6 +588,11 @@ func RunCommon(prop string, c *run.Ctx, s *kit.Summary, children func([]Job, int
 	for i, o := range outs {
 		key := fmt.Sprint(o.Job.Kind, o.Job.Workers, o.Job.Max)
 		if o.Crashed {
+			if prop == "C03" { // a crash is C02's business (closed only after every hit delivered); here: the run cannot be judged
+				jb, _ := json.Marshal(o.Job)
+				s.Diverge("sibling-property:attack_crashed", string(jb), o.CrashMsg, "the attack does not crash (C02)")
+				continue
+			}
 			s.Violate(kit.Violation{Kind: "attack_crashed", What: "the real attack crashed the process (e.g. send on closed channel / close of closed channel)",
 				Input: o.Job, Observed: o.CrashMsg})
 			continue
@@ -597,6 +602,14 @@ func RunCommon(prop string, c *run.Ctx, s *kit.Summary, children func([]Job, int
 			continue
 		}
 		for _, f := range o.Findings {
+			// the two checks share these runs; each reports as a violation only what ITS property says. A finding
+			// of the sibling property still means the run cannot be explained by the model: a broken tie.
+			c03kind := f.Kind == "inflight_exceeds_max" || f.Kind == "free_capacity_not_used"
+			if (prop == "C03") != c03kind {
+				jb, _ := json.Marshal(o.Job)
+				s.Diverge("sibling-property:"+f.Kind, string(jb), f.What+" — observed "+f.Observed, "holds (finding of the sibling property "+map[bool]string{true: "C03", false: "C02"}[c03kind]+")")
+				continue
+			}
 			s.Violate(kit.Violation{Kind: f.Kind, What: f.What, Input: o.Job, Expected: f.Expected, Observed: f.Observed, Key: f.Key})
 		}
 		s.Count("job:" + o.Job.Kind)
